@@ -3,6 +3,7 @@ package format
 
 import (
 	"archive/zip"
+	"bytes"
 	"io"
 	"path/filepath"
 	"strings"
@@ -136,6 +137,21 @@ func detectHTMLMagic(data []byte) bool {
 		return false
 	}
 	data = data[start:]
+
+	// A UTF-8 byte order mark and comments may precede the doctype
+	// (HTML Standard, 13.1 "Writing HTML documents").
+	data = bytes.TrimPrefix(data, []byte("\xef\xbb\xbf"))
+	for {
+		data = bytes.TrimLeft(data, " \t\r\n")
+		if !bytes.HasPrefix(data, []byte("<!--")) {
+			break
+		}
+		end := bytes.Index(data, []byte("-->"))
+		if end < 0 {
+			return false
+		}
+		data = data[end+3:]
+	}
 
 	// Check for common HTML signatures (case-insensitive for DOCTYPE)
 	upper := strings.ToUpper(string(data))
